@@ -1987,7 +1987,7 @@ struct Value {
         const VItem *end    = (h_item + obj.Size());
 
         while (h_item != end) {
-            if ((h_item != nullptr) && !(h_item->Value.isUndefined())) {
+            if ((h_item != nullptr) && !(standsForUndefined(h_item->Value))) {
                 stream += JSONotation::QuoteChar;
                 JSONUtils::Escape(h_item->Key.First(), h_item->Key.Length(), stream);
                 stream += JSONotation::QuoteChar;
@@ -2017,7 +2017,7 @@ struct Value {
         const Value *end  = arr.End();
 
         while (item != end) {
-            if (!(item->isUndefined())) {
+            if (!(standsForUndefined(*item))) {
                 stringifyValue(*item, stream, precision);
                 stream += JSONotation::CommaChar;
             }
@@ -2096,6 +2096,17 @@ struct Value {
 
     inline bool isUndefined() const noexcept {
         return (Type() == ValueType::Undefined);
+    }
+
+    // Undefined itself, or a pointer (chain) that ends at an Undefined value: nothing to write.
+    static bool standsForUndefined(const Value &val) noexcept {
+        const Value *item = &val;
+
+        while (item->Type() == ValueType::ValuePtr) {
+            item = item->value_;
+        }
+
+        return item->isUndefined();
     }
 
     inline bool isObject() const noexcept {
